@@ -26,10 +26,15 @@ type Program struct {
 
 // Load type-checks and builds SSA for /repo (dir) with the given overlay.
 func Load(dir, goarch string, overlay map[string][]byte, patterns ...string) (*Program, error) {
+	return LoadOS(dir, "linux", goarch, overlay, patterns...)
+}
+
+// LoadOS is Load for an explicit GOOS.
+func LoadOS(dir, goos, goarch string, overlay map[string][]byte, patterns ...string) (*Program, error) {
 	cfg := &packages.Config{
 		Mode:    packages.LoadAllSyntax,
 		Dir:     dir,
-		Env:     append(os.Environ(), "GOFLAGS=-mod=mod", "GOPROXY=off", "GOARCH="+goarch, "GOOS=linux", "CGO_ENABLED=0"),
+		Env:     append(os.Environ(), "GOFLAGS=-mod=mod", "GOPROXY=off", "GOARCH="+goarch, "GOOS="+goos, "CGO_ENABLED=0"),
 		Overlay: overlay,
 	}
 	pkgs, err := packages.Load(cfg, patterns...)
